@@ -787,9 +787,7 @@ func callShape(c call, t tree) string {
 				sb = "in-src"
 			case parent(a.P) == b.P:
 				rel = "s-child-of-d"
-			case under(a.P, b.P):
-				rel = "s-in-d"
-			default:
+			default: // (a source deeper inside the destination is "disjoint" from where it would go)
 				rel = "disjoint"
 			}
 			s += "," + sb + ";" + rel
